@@ -241,8 +241,16 @@ def alignment_by_paths(ctx, fi, dc, why):
     fn = fi.node
     pcs = [c for c in calls_in(fn) if m.resolve_call(fi, c) == 'gambit.metric.jaccarddist_pairwise']
     mcs = [c for c in calls_in(fn) if m.resolve_call(fi, c) == 'gambit.metric.jaccarddist_matrix']
-    rep.add('G2', fi.site(pcs[0] if pcs else dc), 'the all-pairs matrix is full (non-flat) and the reference matrix unrestricted', all(get_kw(c, 'flat') is None and len(c.args) == 1 for c in pcs) and all(get_kw(c, 'ref_indices') is None for c in mcs),
-            expected='no flat= / ref_indices=', found=[u(c)[:60] for c in pcs + mcs], stmt='matrix options (paths)')
+    rep.add('G2', fi.site(pcs[0] if pcs else dc), 'the all-pairs matrix is full (non-flat) and the reference matrix unrestricted', all(_is_const(m.effective_arg(fi, c, 'flat'), False) and _is_const(m.effective_arg(fi, c, 'indices'), None) for c in pcs) and all(_is_const(m.effective_arg(fi, c, 'ref_indices'), None) for c in mcs),
+            expected='flat False and indices None (as written or by the default of the signature) / no ref_indices=', found=[(u(c)[:60], _txt(m.effective_arg(fi, c, 'flat'))) for c in pcs] + [u(c)[:60] for c in mcs], stmt='matrix options (paths)')
+
+def _is_const(e, value):
+    return isinstance(e, ast.Constant) and e.value is value
+
+
+def _txt(e):
+    return ast.unparse(e) if isinstance(e, ast.AST) else repr(e)
+
 
 def check(ctx):
     rep, m = ctx.rep, ctx.model
@@ -258,6 +266,14 @@ def check(ctx):
     from . import c01
     rep.rule('K7', 'C01-K7 re-evaluated: every accumulator returns a sorted, duplicate-free signature of the right dtype (the kernel precondition)')
     c01.analyse_accumulators(ctx)
+    # "the true signature distance" of genome FILES: the signatures themselves must be the property-C01 ones - the search, slice,
+    # strand, skip and case-folding premises of C01 are re-evaluated under this property (a change in find_kmers changes every cell)
+    rep.rule('K1', 'C01-K1 (search loops) re-evaluated'); rep.rule('K2', 'C01-K2 slices'); rep.rule('K2.0', 'KmerSpec attribute harvest'); rep.rule('K3', 'C01-K3 composition')
+    rep.rule('K4', 'C01-K4 strand dispatch'); rep.rule('K5', 'C01-K5 skip discipline'); rep.rule('K6', 'C01-K6 case folding'); rep.rule('K9', 'C01-K9 one shared accumulator'); rep.rule('K10', 'C01-K10 input types')
+    rep.rule('T9', 'C07-T9 bindings')
+    c01.harvest_kmerspec(ctx)
+    c01.analyse_slices(ctx, c01.analyse_search_loops(ctx))
+    c01.analyse_accumulate(ctx)
     fi = m.func(D)
     rep.functions.add(fi.qualname)
     fn = fi.node
@@ -305,8 +321,8 @@ def check(ctx):
         rep.require(mw is not None and pw_ is not None, f'dist_cmd: the matrix written is not the plain result of the matrix / pairwise call ({[u(w[0])[:50] for w in written]})')
         mst, pst = mw[1], pw_[1]
         atm, atp = path_atoms(mw[2]), path_atoms(pw_[2])
-        rep.add('G2', fi.site(pst), 'square mode computes all pairs of the queries, as a full (non-flat) matrix', ('true', 'square') in atp and u(pc.args[0]) == q_sigs and get_kw(pc, 'flat') is None and len(pc.args) == 1,
-                expected=f'jaccarddist_pairwise({q_sigs}) under square', found=(u(pc)[:60], sorted(atp)), stmt='square mode')
+        rep.add('G2', fi.site(pst), 'square mode computes all pairs of the queries, as a full (non-flat) matrix', ('true', 'square') in atp and u(pc.args[0]) == q_sigs and _is_const(m.effective_arg(fi, pc, 'flat'), False) and _is_const(m.effective_arg(fi, pc, 'indices'), None),
+                expected=f'jaccarddist_pairwise({q_sigs}) under square', found=(u(pc)[:60], 'flat=' + _txt(m.effective_arg(fi, pc, 'flat')), sorted(atp)), stmt='square mode')
         # which signature-file option each matrix operand is loaded from (directly, through a copy, or through a loading helper whose
         # first argument is the option)
         def load_options(name, depth=0):
@@ -320,7 +336,7 @@ def check(ctx):
             return out
         loads = {v_: sorted(load_options(v_)) for v_ in (q_sigs, r_sigs)}
         rep.require(loads[q_sigs] and loads[r_sigs], 'dist_cmd: cannot find where the signature-file options are loaded')
-        rep.add('G2', fi.site(mst), 'otherwise rows are the queries and columns the references', ('false', 'square') in atm and loads[q_sigs] == ['qs'] and loads[r_sigs] == ['rs'] and get_kw(mc, 'ref_indices') is None,
+        rep.add('G2', fi.site(mst), 'otherwise rows are the queries and columns the references', ('false', 'square') in atm and loads[q_sigs] == ['qs'] and loads[r_sigs] == ['rs'] and _is_const(m.effective_arg(fi, mc, 'ref_indices'), None),
                 expected='jaccarddist_matrix(<signatures of --qs / query files>, <signatures of --rs / --use-db / reference files>) under not square', found=(u(mc)[:60], sorted(atm), loads), stmt='matrix mode')
         q_ids, r_ids = u(rows_a), u(cols_a)
 
@@ -619,6 +635,8 @@ VARIANTS = [
     V('square ids from another list', 'B', _D, "\t\tref_ids = query_ids\n", "\t\tref_ids = sorted(query_ids)\n", 'G1'),
     V('default format 3 decimals', 'B', _C, "fmt: str = '0.4f',", "fmt: str = '0.3f',", 'G4'),
     V('zip for zip_strict in the writer', 'B', _C, "for row_id, values in zip_strict(row_ids, dmat):", "for row_id, values in zip(row_ids, dmat):", 'G4'),
+    V('default of flat flipped in the signature of jaccarddist_pairwise (mutation probe)', 'B', 'src/gambit/metric.py', "                         flat: bool = False,", "                         flat: bool = True,", 'G2'),
+    V('E: flat=False written at the call', 'E', _D, 'dmat = jaccarddist_pairwise(query_sigs, progress=dist_pconf)', 'dmat = jaccarddist_pairwise(query_sigs, flat=False, progress=dist_pconf)'),
     V('flat pairwise output', 'B', _D, "dmat = jaccarddist_pairwise(query_sigs, progress=dist_pconf)", "dmat = jaccarddist_pairwise(query_sigs, flat=True, progress=dist_pconf)", 'G2'),
     V('query ids from the reference signature file', 'B', _D, "\t\tquery_ids = query_sigs.ids\n", "\t\tquery_ids = ref_sigs.ids if rs is not None else query_sigs.ids\n", 'G1'),
     V('reference signatures computed from the query files', 'B', _D, "ref_sigfiles = SequenceFile.from_paths(ref_files, 'fasta', 'auto')", "ref_sigfiles = SequenceFile.from_paths(query_files, 'fasta', 'auto')", 'G3'),
